@@ -718,7 +718,13 @@ func parseCharacterEscape(text []byte) (end int) {
 
 func isEntity(x []byte) bool {
 	s := html.UnescapeString(string(x))
-	return !strings.HasPrefix(s, "&") || !strings.HasSuffix(s, ";")
+	if s == string(x) {
+		return false
+	}
+	// html.UnescapeString also expands the legacy entities that need no semicolon,
+	// leaving the rest of the name and the semicolon in place ("&ltx;" becomes "<x;").
+	// No entity expands to text ending in a semicolon, other than "&semi;" itself.
+	return !strings.HasSuffix(s, ";") || s == ";"
 }
 
 func (p *InlineParser) parseDelimiterRun(state *inlineState, start int) (end int) {
